@@ -81,6 +81,11 @@ class FaultAtK(Contract):
                                 if method != METHODS[0] and verbose:
                                     continue
                                 yield {"cfg": cfgname, "method": method, "raise_exception": raise_exception, "verbose": verbose, "fail_at": k, "persistent": persistent, "nonneg": cfgname == "mc_shared_labels_scales"}
+        # raise_exception=True under a warnings filter that turns warnings into errors (python -W error, pytest filterwarnings = error):
+        # the *original* exception propagates, not a warning about it
+        for k in (1, 2, 3):
+            for verbose in (False, True):
+                yield {"cfg": "mc_shared_labels_scales", "method": METHODS[0], "raise_exception": True, "verbose": verbose, "fail_at": k, "persistent": False, "nonneg": True, "warnings_as_errors": True}
 
     def build(self, S, case):
         b = harness.build(S, _cfg(case["cfg"]))
@@ -117,6 +122,8 @@ class FaultAtK(Contract):
             with harness.residual_stubs(b.S, symbolic) as log, warnings.catch_warnings(record=True) as w:
                 warnings.simplefilter("always")
                 opt = om.Optimizer(b.scheme, verbose=case["verbose"], raise_exception=case["raise_exception"])
+                if case.get("warnings_as_errors"):
+                    warnings.simplefilter("error")
                 out["opt"] = opt
                 out["calls_after_init"] = len(calls)
                 try:
